@@ -6,9 +6,9 @@
 
    UdpFace (the datagram endpoint of the event loop is the environment: it calls the protocol object that open()
    registered - datagram_received / error_received / connection_lost - and receives sendto / close):
-     open      running := True FIRST, then the endpoint is created.  OpenOk: handler, transport and the `close`
-               future exist.  OpenFail (the endpoint cannot be created): the exception propagates, and
-               running STAYS True                                                  [DevRunningAfterFailedOpen]
+     open      the endpoint is created, then handler, transport and the `close` future exist and running := True
+               (OpenOk).  OpenFail (the endpoint cannot be created): the exception propagates, nothing changes.
+               (old code: running := True FIRST, and it stayed True after OpenFail  [DevRunningAfterFailedOpen])
      send      no test of `running`: before the first successful open -> AttributeError (no handler yet);
                otherwise handed to the transport of the last successful open (a closed transport drops it)
      shutdown  running := False, transport.close(); before the first successful open -> AttributeError after
@@ -16,23 +16,24 @@
      run       awaits the `close` future: returns once the endpoint reported connection_lost / an error
      datagram  one callback task per datagram whose first TLV number parses; an empty datagram or one with a
                truncated number is ignored (a warning is logged)
-     error_received   resolves `close` WITHOUT looking whether it is resolved already: a second error (or one
-               after connection_lost) raises InvalidStateError inside the protocol        [DevErrorTwice]
+     error_received   resolves `close` unless resolved: a second error is harmless
+               (old code: no test, a second error raised InvalidStateError inside the protocol   [DevErrorTwice])
      connection_lost  resolves `close` unless resolved
    DummyFace:  open / shutdown only toggle running; send appends to output_buf ALWAYS (no refusal, open or not);
      input_packet awaits the callback once for a well-formed packet and fails its assertion on trailing / missing
      bytes; run awaits the test function and then shuts the application down.
 
-   The two named deviations widen what the replay accepts (harness/facekit.py, differs()): a face that says
-   running = False while no transport is open after a failed open, and a second error_received that is swallowed,
-   conform as well (that is what the repaired code does).
+   Both deviations were found by this check and are REPAIRED in the library (commit c0254c0); the check is strict:
+   Dev = {} in every configuration harness/facekit.py writes, so a regression of the repair is a violation.  The
+   switches (constant Dev) stay as documentation of the old behaviour and for sensitivity experiments.
 
    last = result of the last call: "ok" | "AttributeError" | "InvalidStateError" | "OSError" | "AssertionError" *)
 EXTENDS Naturals, Sequences, TLC
 CONSTANTS Kind,      \* "udp" | "dummy"
           MaxIn,     \* datagrams / packets fed
           MaxOut,    \* sends
-          MaxOpen    \* open attempts
+          MaxOpen,   \* open attempts
+          Dev        \* deviations modelled as (old) code: subset of {"DevRunningAfterFailedOpen", "DevErrorTwice"}; {} = strict
 
 VARIABLES opened,    \* a successful open happened (handler / transport / close future exist)
           running,   \* face.running
@@ -62,7 +63,7 @@ OpenOk == /\ nopen < MaxOpen /\ ~topen /\ nopen' = nopen + 1
           /\ UNCHANGED <<nin, good, cb, nout, wire, dropped>>
 \* only the datagram face connects
 OpenFail == /\ Udp /\ nopen < MaxOpen /\ ~topen /\ nopen' = nopen + 1
-            /\ running' = TRUE /\ last' = "OSError"
+            /\ running' = (IF "DevRunningAfterFailedOpen" \in Dev THEN TRUE ELSE running) /\ last' = "OSError"
             /\ UNCHANGED <<opened, topen, closeDone, nin, good, cb, nout, wire, dropped, runst>>
 Send == /\ nout < MaxOut /\ nout' = nout + 1
         /\ IF Udp /\ ~opened THEN last' = "AttributeError" /\ UNCHANGED <<wire, dropped>>
@@ -94,7 +95,7 @@ Input(k) == /\ ~Udp /\ nin < MaxIn /\ nin' = nin + 1 /\ k \in {"good", "typeonly
                ELSE UNCHANGED <<good, cb>> /\ last' = (IF k = "trailing" THEN "AssertionError" ELSE "ParseError")
             /\ UNCHANGED <<opened, running, topen, closeDone, nout, wire, dropped, nopen, runst>>
 ErrorReceived == /\ Udp /\ topen
-                 /\ IF closeDone THEN last' = "InvalidStateError" /\ UNCHANGED <<closeDone, runst>>
+                 /\ IF closeDone THEN last' = (IF "DevErrorTwice" \in Dev THEN "InvalidStateError" ELSE "ok") /\ UNCHANGED <<closeDone, runst>>
                     ELSE last' = "ok" /\ closeDone' = TRUE /\ runst' = RunSettles(TRUE)
                  /\ UNCHANGED <<opened, running, topen, nin, good, cb, nout, wire, dropped, nopen>>
 Next == OpenOk \/ OpenFail \/ Send \/ Shutdown \/ Run \/ ErrorReceived
@@ -105,9 +106,10 @@ Spec == Init /\ [][Next]_vars
 TypeOK == /\ opened \in BOOLEAN /\ running \in BOOLEAN /\ topen \in BOOLEAN /\ closeDone \in BOOLEAN
           /\ runst \in {"idle", "waiting", "returned"} /\ cb <= nin /\ wire + dropped <= nout
 OneCallbackPerDatagram == cb = good
-\* running tells whether there is an open transport - except after a failed open        [DevRunningAfterFailedOpen]
-FailedOpenPending == Udp /\ running /\ ~topen
+\* running tells whether there is an open transport (with DevRunningAfterFailedOpen: except after a failed open)
+FailedOpenPending == Udp /\ running /\ ~topen /\ "DevRunningAfterFailedOpen" \in Dev
 RunningMeansOpen == running => (topen \/ FailedOpenPending)
+NoProtocolError == last # "InvalidStateError" \/ "DevErrorTwice" \in Dev
 TransportOpenMeansRunning == topen => running
 \* run() has returned only if the endpoint is gone or reported an error
 ReturnedMeansClosed == (Udp /\ runst = "returned") => closeDone
@@ -120,8 +122,8 @@ ShutdownIdempotent == [][(Shutdown /\ ~running /\ ~topen /\ (opened \/ ~Udp))
 ClosedTransportSendsNothing == [][(~topen /\ Udp) => wire' = wire]_vars
 
 W_Reopen      == ~(nopen = 2 /\ topen /\ cb > 0)
-W_FailedOpen  == ~(FailedOpenPending /\ ~opened /\ last = "AttributeError")
-W_ErrorTwice  == ~(last = "InvalidStateError")
+W_FailedOpen  == ~(Udp /\ nopen > 0 /\ ~opened /\ ~running /\ last = "AttributeError")   \* failed open, then a send
+W_ErrorTwice  == ~(Udp /\ topen /\ closeDone /\ runst = "returned")       \* (a further error is possible here)
 W_Dropped     == ~(dropped > 0)
 W_Ignored     == ~(nin > good /\ Udp)
 W_RunReturned == ~(runst = "returned" /\ Udp /\ ~running)
